@@ -6,7 +6,7 @@ HTTP_OK = {"create-stream", "update-stream", "delete-stream", "purge-stream", "c
            "delete-topic", "purge-topic", "create-parts", "delete-parts", "create-group", "delete-group",
            "send", "poll", "store-offset", "get-offset", "delete-offset", "streams", "stream", "topics", "topic",
            "groups", "group", "users", "user", "create-user", "delete-user", "update-user", "update-perms",
-           "stats", "flush"}
+           "stats", "flush", "change-pw", "create-pat", "delete-pat", "pats"}
 HC = 7
 
 
